@@ -12,4 +12,10 @@ def encodeHand (d x : Nat) : Nat := 4 ^ (d + 1) + x
 /-- `range(1, self.maxdepth + 1)` -/
 def levelsHand (maxdepth : Nat) : List Nat := Py.range 1 (maxdepth + 1) 1
 
+/-- `range(1, self.maxdepth+1)` in `write_reg` -/
+def regLevelsHand (maxdepth : Nat) : List Nat := Py.range 1 (maxdepth + 1) 1
+
+/-- the value of the MOCORDER card -/
+def mocOrderHand (maxdepth : Nat) : Nat := maxdepth
+
 end Aegean.Model.C12
